@@ -361,16 +361,15 @@ struct Driver {
                 if (le.exit_must) exit_must = true;
                 if (le.exit_may) exit_may = true;
                 ++refs_checked;
-                vh::counter(std::string("histref_entry_") + (rr.why[1] == '!' ? "bangbang" : (rr.why[1] == '-' ? "negative" : "absolute")));
+                vh::counter(std::string("histref_entry_") + rr.tag);
                 if (m.hist.size() == c13::kHistoryMax) vh::counter("histref_entry_with_full_history");
             } else if (rr.cls == c13::REF_ERROR) {
                 ++need_errors;
                 ++refs_checked;
                 vh::counter("histref_error_expected");
                 if (m.hist.empty()) vh::counter("histref_error_with_empty_history");
-                std::string w = rr.why;
-                for (auto &c : w) if (c == ' ' || c == '!' || c == '-') c = '_';
-                vh::counter("histref_error_" + w);
+                vh::counter(std::string("histref_error_") + rr.tag);
+                if (li.segs[0].args[0].size() > 11) vh::counter("histref_error_number_beyond_int");
             } else {
                 wild = true;
                 vh::counter("histref_open_form");
